@@ -199,3 +199,62 @@ func sortedKeys[M ~map[string]V, V any](m M) []string {
 	sort.Strings(ks)
 	return ks
 }
+
+// resolveTypeString resolves "int", "bool", "pkg.Name", "*pkg.Name", "Name" (in pkgPath) to a Go type.
+func (g *Gen) resolveTypeString(s, pkgPath string) types.Type {
+	s = strings.TrimSpace(s)
+	if strings.HasPrefix(s, "*") {
+		if T := g.resolveTypeString(s[1:], pkgPath); T != nil {
+			return types.NewPointer(T)
+		}
+		return nil
+	}
+	if strings.HasPrefix(s, "[]") {
+		if T := g.resolveTypeString(s[2:], pkgPath); T != nil {
+			return types.NewSlice(T)
+		}
+		return nil
+	}
+	for _, b := range types.Typ {
+		if b.Name() == s {
+			return b
+		}
+	}
+	if s == "byte" {
+		return types.Typ[types.Uint8]
+	}
+	if i := strings.LastIndex(s, "."); i >= 0 {
+		pn, tn := s[:i], s[i+1:]
+		var cands []string
+		if p := g.allPkgs[pkgPath]; p != nil {
+			for path, imp := range p.Imports {
+				if imp.Name == pn {
+					cands = append(cands, path)
+				}
+			}
+		}
+		for path, p := range g.allPkgs {
+			if p.Name == pn {
+				cands = append(cands, path)
+			}
+		}
+		for _, path := range cands {
+			if p := g.allPkgs[path]; p != nil && p.Types != nil {
+				if o := p.Types.Scope().Lookup(tn); o != nil {
+					if _, ok := o.(*types.TypeName); ok {
+						return o.Type()
+					}
+				}
+			}
+		}
+		return nil
+	}
+	if p := g.allPkgs[pkgPath]; p != nil && p.Types != nil {
+		if o := p.Types.Scope().Lookup(s); o != nil {
+			if _, ok := o.(*types.TypeName); ok {
+				return o.Type()
+			}
+		}
+	}
+	return nil
+}
